@@ -146,7 +146,19 @@ pub fn build_bytes(l: &mut Local, site: &str, p: &Pkt, var: Variant) -> Option<B
     let r = guard::catch(|| {
         build::with_writer(p, var, &mut |w| {
             l.transitions += 1;
-            match w.calculate_size() {
+            let mut first = w.calculate_size();
+            if let Err(e) = &first {
+                // a refusal must stand: the same builder asked again (size, then a write into a large buffer) must
+                // refuse again; if it now accepts, the configuration counts as accepted and what it writes is judged
+                let again = w.calculate_size();
+                let mut big = crate::engine::place::OutBuf::new(4096, |_| 0xA5);
+                let wr = DynW(w).write_into(&mut big);
+                if again.is_ok() || wr.is_ok() {
+                    l.violation(format!("{}:{}:refused-then-accepted", site, p.builder_name()), || p.short(), || format!("calculate_size() = Err({:?}), then calculate_size() = {:?} and write_into() = {:?} on the same builder", e, again, wr));
+                    first = w.calculate_size();
+                }
+            }
+            match first {
                 Err(e) => out = Some(Built::Rejected(build::werr(e))),
                 Ok(n) => {
                     let mut buf = crate::engine::place::OutBuf::new(n, |_| 0xA5);
@@ -465,6 +477,19 @@ pub fn roundtrip_in_context(l: &mut Local, site: &str, p: &Pkt, alone: &[u8]) {
     }
 }
 
+/// The configuration `p` with a padding that is not a multiple of 4, set as the last builder call after the builder
+/// was sized and written at every earlier step (probed flavour; for the builders whose plain call order sets the
+/// padding first, the padding-last order): a builder that answered a size query before the padding was known must
+/// still refuse - and whatever it accepts must read back as configured.
+pub fn illegal_padding_set_late(l: &mut Local, p: &Pkt) {
+    const BAD: [u8; 9] = [5, 6, 7, 1, 2, 3, 253, 254, 255];
+    let idx = l.cur_idx;
+    let mut q = p.clone();
+    q.set_pad(BAD[((idx / 3) % 9) as usize]);
+    let pad_last = matches!(p, Pkt::Sr { .. } | Pkt::Rr { .. } | Pkt::Sdes { .. } | Pkt::Bye { .. });
+    roundtrip_case(l, "roundtrip-illegal-padding-set-late", &q, Variant { pad_last, owned: idx % 2 == 1, ..Variant::PROBED });
+}
+
 pub fn fci_name(p: &Pkt) -> &'static str {
     match p {
         Pkt::Fb { fci, .. } => fci.name(),
@@ -486,8 +511,8 @@ pub fn run_cfg_spaces(ctx: &mut Ctx, spaces: Vec<CfgSpace>, f: impl Fn(&Pkt, u64
 // Iterator call histories
 
 /// The operations of an iterator call history.
-const IT_OPS: [&str; 8] = ["next()", "nth(0)", "nth(1)", "nth(2)", "nth(7)", "by_ref().take(2).count()", "size_hint()", "observe()"];
-/// The first six operations consume items; the last two are observations (the size hint; `{:?}` of the iterator where it has one, other values parsed and iterated meanwhile otherwise) that may come at any point of a history.
+const IT_OPS: [&str; 9] = ["next()", "nth(0)", "nth(1)", "nth(2)", "nth(7)", "by_ref().take(2).count()", "size_hint()", "observe()", "(a second iterator from the same source, advanced / drained)"];
+/// The first six operations consume items; the last three are observations (the size hint; `{:?}` of the iterator where it has one, other values parsed and iterated meanwhile otherwise) that may come at any point of a history.
 const IT_CONSUMING: u64 = 6;
 /// How a history ends (on what is left of the iterator).
 const IT_ENDS: [&str; 10] = ["for-loop", "count()", "last()", "nth(remaining)", "collect::<Vec<_>>()", "fold()", "for_each()", "position(last)", "max_by_key(call index)", "skip(1).step_by(2)"];
@@ -583,8 +608,17 @@ where
                             let _ = it.size_hint();
                             (None, None)
                         }
-                        _ => {
+                        7 => {
                             observe(&it);
+                            (None, None)
+                        }
+                        _ => {
+                            // another iterator made by the same call on the same parsed value lives for a moment: it is
+                            // advanced by two items, then drained
+                            let mut other = mk();
+                            let _ = other.next();
+                            let _ = other.next();
+                            let _ = other.take(n + 2).count();
                             (None, None)
                         }
                     };
@@ -804,7 +838,7 @@ pub fn all_iterator_histories(l: &mut Local, bytes: &[u8], depth: u32) -> usize 
 /// through the space): the round-trip properties speak of "the same blocks / chunks / entries in the same order",
 /// which must hold however the iterators are driven.
 pub fn roundtrip_iterator_histories(ctx: &mut Ctx, spaces: Vec<CfgSpace>, per_space: u64, depth: u32) {
-    ctx.bound("iterator histories", format!("about {} built packets per configuration space: every iterator of the parsed packet driven through all call sequences of length <= {} over {{next, nth(0), nth(1), nth(2), nth(7), take(2).count()}} x 10 endings with size_hint() after every call, and over those plus {{size_hint(), observe()}} placed by the history", per_space, depth));
+    ctx.bound("iterator histories", format!("about {} built packets per configuration space: every iterator of the parsed packet driven through all call sequences of length <= {} over {{next, nth(0), nth(1), nth(2), nth(7), take(2).count()}} x 10 endings with size_hint() after every call, and over those plus {{size_hint(), observe(), a second iterator over the same value}} placed by the history", per_space, depth));
     for sp in spaces {
         let stride = (sp.len / per_space).max(1);
         let n = sp.len / stride;
